@@ -31,6 +31,9 @@ type model struct {
 	calls    []mcall
 	nextID   int
 	inTest   bool // one call lives in a _test.go file
+	// hidden: the package has lost every buildable source of its own ("deleted": the files are gone, only a text
+	// file keeps the directory; "constrained": every file carries a build constraint that excludes it)
+	hidden string
 }
 
 var fieldTypes = []string{"int", "string", "[]int", "*int", "map[string]int", "float64", "[2]string", "*SELF", "[]byte", "bool", "[]*SELF", "map[int]string", "uint8"}
@@ -94,8 +97,21 @@ func (m *model) render() map[string]string {
 	if m.inTest && len(m.calls) > 0 {
 		files["p/more_test.go"] = ts.String()
 	}
+	switch m.hidden {
+	case "deleted":
+		return map[string]string{"go.mod": files["go.mod"], "p/NOTES.txt": "the sources moved elsewhere\n"}
+	case "constrained":
+		for name, src := range files {
+			if strings.HasSuffix(name, ".go") {
+				files[name] = "//go:build never\n\n" + src
+			}
+		}
+	}
 	return files
 }
+
+// live reports whether the package has derive calls in files that are built.
+func (m *model) live() bool { return len(m.calls) > 0 && m.hidden == "" }
 
 // usable: some (kind, type) combinations are outside the supported set
 func (m *model) supported() bool {
@@ -133,6 +149,15 @@ func drawModel(t *rapid.T) *model {
 
 // step applies one edit and returns its description and whether it touches a type used by a call.
 func (m *model) step(t *rapid.T) (string, bool) {
+	if m.hidden != "" {
+		was := m.hidden
+		m.hidden = ""
+		return "the sources are back (they were " + was + ")", true
+	}
+	if rapid.IntRange(0, 11).Draw(t, "hide") == 0 {
+		m.hidden = pick(t, "hidekind", []string{"deleted", "constrained"})
+		return "every source file of the package is " + m.hidden, true
+	}
 	for {
 		switch rapid.IntRange(0, 9).Draw(t, "edit") {
 		case 0:
@@ -355,7 +380,7 @@ func TestProp(t *testing.T) {
 				c.Rep.Note("from-scratch run rejected the sources: %s", pkit.FirstLines(wstderr, 2))
 				return
 			}
-			if !wantExists && len(m.calls) > 0 {
+			if !wantExists && m.live() {
 				c.Fail(rt, map[string]string{"check": "no-output-from-scratch"}, "goderive exits 0 from scratch but writes no derived.gen.go although the package has derive calls", files, nil)
 				return
 			}
@@ -415,6 +440,11 @@ func TestProp(t *testing.T) {
 			}
 			// the package may be addressed in any spelling; the reference run uses ./p
 			spell := rapid.SampledFrom([]string{"./p", "./p", "subj/p", "./...", "dot"}).Draw(rt, "spelling")
+			if m.hidden == "deleted" && (spell == "subj/p" || (spell == "./..." && (!stepHadOld || corrupt != ""))) {
+				// an import path does not name a directory without sources, and ./... only finds the directory through a
+				// derived.gen.go that parses: goderive exits 1 on these, which is no successful run
+				spell = "./p"
+			}
 			var res gorun.Result
 			if spell == "dot" {
 				res = gorun.RunGoderive(filepath.Join(dir, "p"), ".")
@@ -468,7 +498,7 @@ func TestProp(t *testing.T) {
 			}
 		}
 		// the final state must type-check (once per history: it is the expensive part)
-		if len(m.calls) > 0 {
+		if m.live() {
 			cr, err := gorun.TypeCheck(dir, true, "./p")
 			if err == nil && len(cr.Errors) > 0 {
 				c.Fail(rt, map[string]string{"check": "ill-typed"}, "the package does not type-check after the history:\n"+pkit.Trunc(strings.Join(cr.Errors, "\n"), 800)+"\nhistory:\n  "+strings.Join(history, "\n  "), files, nil)
